@@ -44,7 +44,8 @@ def norm_case(ctx, rec):
         ctx.count_clause("norm.values")
         if not ok:
             ctx.violation("norm.values", "mode=%s type=%s zero_normaliser=%s" % (rec["mode"], tname, rec["factor"] == 0),
-                          "values %s (%s): normalised %s, specification %s" % (vals, tname, {k: str(v) for k, v in got.items()}, [str(w) for w in want]),
+                          "values %s (%s): normalised %s, specification %s" % (
+                              vals, tname, {k: str(v) for k, v in got.items()} if isinstance(got, dict) else repr(got), [str(w) for w in want]),
                           rec)
     # through the public method of an explainer whose importance trackers hold exactly these values
     for dyn, unit in ((False, 1.0), (True, 1.0), (False, 2.0 ** -70), (True, 2.0 ** -45)):
